@@ -263,6 +263,9 @@ func applyMuts(ents []*estargz.TOCEntry, muts []Mut) []*estargz.TOCEntry {
 		case "move": // move an entry (with its chunks) to another position
 			i := idx(m.I)
 			g := gs[i]
+			if g[0].Type == "reg" && g[0].Size > 0 {
+				break // the order of data entries must stay the order of the blob, or the TOC no longer describes it
+			}
 			gs = append(gs[:i], gs[i+1:]...)
 			j := ((m.J % n) + n) % n
 			gs = append(gs[:j], append([][]*estargz.TOCEntry{g}, gs[j:]...)...)
